@@ -1,7 +1,7 @@
 """C02 - explicitly conflicting transactions and methods never run together."""
 
 from tv.designs import gen_spec
-from tv.props._core_a import run_design
+from tv.props._core_a import run_design, tier_opts
 
 ID = "C02"
 ENGINE = "A"
@@ -23,7 +23,7 @@ def budget(tier):
 
 
 def strategy(tier):
-    return gen_spec(allow_rels=True, min_rels=1, rel_kinds=("conf", "conf", "conf", "sb"))
+    return gen_spec(**{**tier_opts(tier), **dict(allow_rels=True, min_rels=1, rel_kinds=("conf", "conf", "conf", "sb"))})
 
 
 def run_case(case):
